@@ -270,6 +270,9 @@ def unborn_head_update(ctx, repo, rng, trail):
     cur_ref = sym.stdout.decode().strip() if sym.returncode == 0 else None
     cur_sha = repo.rev("HEAD")
     repo.serial += 1
+    if rng.random() < 0.5 and not os.path.lexists(os.path.join(repo.repo, "HEAD")):
+        # a work-tree file named like the reference: `git rev-parse HEAD` would echo it as a path
+        open(os.path.join(repo.repo, "HEAD"), "wb").write(b"not the ref\n"); trail.append(["root_file_named", "HEAD"]); ctx.count("root_file_named_HEAD")
     subprocess.run(["git", "symbolic-ref", "HEAD", "refs/heads/unborn-%d" % repo.serial], cwd=repo.repo, capture_output=True, env=genv)
     try:
         before = show_checkpoint(repo)
